@@ -28,3 +28,10 @@ Proof.
     rewrite HP. tauto.
 Qed.
 Print Assumptions query_cables_all_spec.
+
+Theorem cands_cables_all_candidates s (W : QWF s) rec fuel root ps os :
+  cands_cables s fuel [root] rec SAll = WOk (ps, os) ->
+  (forall d, In d ps <-> lead_defs s root d) /\ NoDup os /\ forall c, In c os <-> cables_all s root c.
+Proof.
+  intro E. exact (conj (cands_cables_all_parents s W rec fuel root ps os E) (cands_cables_all_exact s W rec fuel root ps os E)).
+Qed.
